@@ -13,6 +13,7 @@
  *              sfail=<indices of FAILED schema ops that changed the dictionary, or ->
  *              warn=<"not freed from the dictionary" warnings during ly_ctx_destroy> eint=<"Internal error" messages>
  *              onn=<ops that failed but left a non-NULL output> integ=<broken node links seen by the integrity walk>
+ *              left=<failed subtree parses that left parsed (explicit) nodes in the parent>
  *              lost=<(leaf-)list instances their own sibling lookup does not find> live=<slots alive before the final free>
  *              heap=<1 when the byte balance of the heap differs from that of an empty history>
  *              leak=<VP_LEAKCHECK(), run when heap=1 or forced> leakat=<innermost 3 frames of the first leak's allocation, or ->
@@ -228,7 +229,7 @@ static struct lyd_node *slot[NSLOT];
 static struct lyd_node *ghost[MAXGHOST];
 static int nghost;
 static long base_rec, base_ref;
-static int n_warn, n_eint, n_onn, n_integ, n_lost, n_mid;
+static int n_warn, n_eint, n_onn, n_integ, n_lost, n_mid, n_left;
 static int debug;       /* VERIF_LIFE_DEBUG=1: log messages and op trace on stderr, =2: also every slot after every op */
 
 static void
@@ -730,6 +731,14 @@ do_op(const struct op *o, int idx)
         return 0;
     }
 
+    if (IS("culr")) {
+        /* culr   ly_ctx_unset_options(LY_CTX_LEAFREF_LINKING) while linked data are alive (all link records are released), then set it again */
+        if (!(ly_ctx_get_options(ctx) & LY_CTX_LEAFREF_LINKING)) return -1;
+        rc = ly_ctx_unset_options(ctx, LY_CTX_LEAFREF_LINKING);
+        if (!rc) rc = ly_ctx_set_options(ctx, LY_CTX_LEAFREF_LINKING);
+        return rc;
+    }
+
     if (IS("zc")) {
         /* lydict_insert_zc consumes the malloc'd string, also when the string is already present */
         char *v = A_s(o, 1, NULL);
@@ -795,18 +804,26 @@ do_op(const struct op *o, int idx)
         return rc;
     }
     if (IS("pinp")) {
-        /* pinp:s:nsel:fmt:popts:vopts:doc   parse a subtree document under an existing parent */
+        /* pinp:s:nsel:fmt:popts:vopts:doc[:notree]   parse a subtree document under an existing parent; notree = 1: no output pointer */
         int s = A_slot(o, 1);
         struct lyd_node *par = sel(s, A_s(o, 2, NULL)), *first = NULL;
         long fmt = A_i(o, 3);
         uint32_t popts = (uint32_t)A_i(o, 4) & ~(uint32_t)LYD_PARSE_ORDERED, vopts = (uint32_t)A_i(o, 5);
         char *doc = A_s(o, 6, NULL);
+        int notree = (o->n > 7) && A_i(o, 7);
         struct ly_in *in = NULL;
+        struct lyd_node *ch;
+        long before = 0, after = 0;
 
         if (!doc || !is_inner(par)) return -1;
         if (ly_in_new_memory(doc, &in)) return -1;
-        rc = lyd_parse_data(ctx, par, in, fmt ? LYD_JSON : LYD_XML, popts, vopts, &first);
+        LY_LIST_FOR(lyd_child(par), ch) before += !(ch->flags & LYD_DEFAULT);
+        rc = lyd_parse_data(ctx, par, in, fmt ? LYD_JSON : LYD_XML, popts, vopts, notree ? NULL : &first);
         ly_in_free(in, 0);
+        LY_LIST_FOR(lyd_child(par), ch) after += !(ch->flags & LYD_DEFAULT);
+        if (rc && (after > before)) n_left++;     /* a failed call frees what it parsed (explicit nodes; default ones may stay) */
+        OUT_CHECK(rc, first);
+        if (!rc && first && (lyd_parent(first) != par)) n_onn++;     /* documented: the first parsed child */
         slot[s] = home(par);
         return rc;
     }
@@ -1625,7 +1642,7 @@ run_history(const char *id, int set, uint32_t ctxopts, char *script)
 
     memset(slot, 0, sizeof slot);
     nghost = 0;
-    n_warn = n_eint = n_onn = n_integ = n_lost = n_mid = n_sfail = 0;
+    n_warn = n_eint = n_onn = n_integ = n_lost = n_mid = n_left = n_sfail = 0;
 
     for (p = strtok_r(script, ";", &save1); p && (nops < MAXOPS); p = strtok_r(NULL, ";", &save1)) {
         struct op *o = &ops[nops++];
@@ -1695,7 +1712,7 @@ run_history(const char *id, int set, uint32_t ctxopts, char *script)
         fprintf(stdout, "%s%d", i ? "," : "", sfail_idx[i]);
     }
     if (!n_sfail) fputs("-", stdout);
-    fprintf(stdout, " warn=%d eint=%d onn=%d integ=%d lost=%d live=%d heap=%d leak=%d leakat=%s", n_warn, n_eint, n_onn, n_integ, n_lost, live, heap, leak ? 1 : 0, leakat);
+    fprintf(stdout, " warn=%d eint=%d onn=%d integ=%d lost=%d left=%d live=%d heap=%d leak=%d leakat=%s", n_warn, n_eint, n_onn, n_integ, n_lost, n_left, live, heap, leak ? 1 : 0, leakat);
     vp_end();
 }
 
